@@ -687,7 +687,10 @@ def _run_job(job):
         vs.extend(f(h, res))
     key = None
     if res.value is not None:
-        key = (res.value["model"], res.value["book"])
+        book = res.value["book"]
+        if book and book[0] == "unavailable":
+            book = ("history", repr(hist))     # introspection failed: no merging (slower, never unsound)
+        key = (res.value["model"], book)
     nev = len(res.value["events"]) if res.value else 0
     return dict(vs=vs, key=key, steps=res.steps, outcome=ex._digest(h.outcome(res)), name=h.name, nev=nev)
 
